@@ -483,4 +483,201 @@ theorem conc_quiescent_view {C : Conc} (hq : ¬ C.enabledInternal) {r : Nat} {v 
           exact hq ⟨r', e', hi', by simp [Conc.step, hv2, hal, hs3]⟩
       | _ => simp [Conc.allows] at ha
 
+/-! ### an execution built from a finite run
+
+`execOfRun` turns a finite run `Conc.run C0 es = some Cf` into the infinite execution that performs
+the events of `es` one per tick — every one of them is taken, none stutters — and rests afterwards. -/
+
+theorem run_append (C0 : Conc) (l1 l2 : List ConcEvent) :
+    Conc.run C0 (l1 ++ l2) = (Conc.run C0 l1).bind fun C1 => Conc.run C1 l2 := by
+  simp [Conc.run, List.foldlM_append]
+
+theorem run_take_step {C0 Cf : Conc} {es : List ConcEvent} (h : Conc.run C0 es = some Cf) {n : Nat}
+    (hn : n < es.length) :
+    ∃ Cn Cn1, Conc.run C0 (es.take n) = some Cn ∧ Conc.stepE Cn es[n] = some Cn1 ∧
+      Conc.run C0 (es.take (n + 1)) = some Cn1 := by
+  have h' : Conc.run C0 (es.take n ++ (es[n] :: es.drop (n + 1))) = some Cf := by
+    rw [← List.drop_eq_getElem_cons hn, List.take_append_drop]; exact h
+  rw [run_append] at h'
+  cases hrun : Conc.run C0 (es.take n) with
+  | none => simp [hrun] at h'
+  | some Cn =>
+    simp only [hrun, Option.bind_some] at h'
+    simp only [Conc.run, List.foldlM_cons] at h'
+    cases hstep : Conc.stepE Cn es[n] with
+    | none => simp [hstep] at h'
+    | some Cn1 =>
+      refine ⟨Cn, Cn1, rfl, hstep, ?_⟩
+      rw [List.take_succ_eq_append_getElem hn, run_append, hrun]
+      simp [Conc.run, hstep]
+
+def execState (C0 : Conc) (es : List ConcEvent) (n : Nat) : Conc := (Conc.run C0 (es.take n)).getD C0
+
+theorem execState_step {C0 Cf : Conc} {es : List ConcEvent} (h : Conc.run C0 es = some Cf) {n : Nat}
+    (hn : n < es.length) :
+    Conc.stepE (execState C0 es n) es[n] = some (execState C0 es (n + 1)) := by
+  obtain ⟨Cn, Cn1, h1, h2, h3⟩ := run_take_step h hn
+  simp [execState, h1, h2, h3]
+
+theorem execState_final {C0 Cf : Conc} {es : List ConcEvent} (h : Conc.run C0 es = some Cf) {n : Nat}
+    (hn : es.length ≤ n) : execState C0 es n = Cf := by
+  simp [execState, List.take_of_length_le hn, h]
+
+/-- the execution that performs `es` (one event per tick, all of them succeed) and then rests -/
+def execOfRun (C0 Cf : Conc) (es : List ConcEvent) (h0 : C0.Reachable) (h : Conc.run C0 es = some Cf) : Exec where
+  C := execState C0 es
+  ev := fun n => es[n]?
+  start := by simpa [execState, Conc.run] using h0
+  next := by
+    intro n
+    by_cases hn : n < es.length
+    · simp only [List.getElem?_eq_getElem hn]
+      rw [execState_step h hn]
+      rfl
+    · have hn' : es.length ≤ n := by omega
+      simp only [List.getElem?_eq_none hn']
+      rw [execState_final h hn', execState_final h (by omega)]
+
+/-- such an execution is fair when its last event is an engine step and its final state is quiescent:
+    from every tick before the end the last tick takes an engine step; afterwards nothing is enabled -/
+theorem execOfRun_fair {C0 Cf : Conc} {es : List ConcEvent} (h0 : C0.Reachable) (h : Conc.run C0 es = some Cf)
+    (hne : es ≠ []) (hlast : (es.getLast hne).internal = true) (hq : ¬ Cf.enabledInternal) :
+    (execOfRun C0 Cf es h0 h).Fair := by
+  intro n hen
+  by_cases hn : n < es.length
+  · have hpos : 0 < es.length := by omega
+    have hm : es.length - 1 < es.length := by omega
+    refine ⟨es.length - 1, by omega, es[es.length - 1], ?_, ?_, ?_⟩
+    · show es[es.length - 1]? = _
+      exact List.getElem?_eq_getElem hm
+    · rw [List.getLast_eq_getElem] at hlast; exact hlast
+    · show (Conc.stepE (execState C0 es (es.length - 1)) es[es.length - 1]).isSome = true
+      rw [execState_step h hm]; rfl
+  · exfalso
+    have : (execOfRun C0 Cf es h0 h).C n = Cf := execState_final h (by omega)
+    rw [this] at hen
+    exact hq hen
+
+/-- … and its additions stop at `N` when no event from position `N` on adds work -/
+theorem execOfRun_addsStop {C0 Cf : Conc} {es : List ConcEvent} (h0 : C0.Reachable) (h : Conc.run C0 es = some Cf)
+    {N : Nat} (hN : (es.drop N).all (fun e => !e.adds) = true) : (execOfRun C0 Cf es h0 h).AddsStopAt N := by
+  intro n hn e he
+  have he' : es[n]? = some e := he
+  obtain ⟨hlt, heq⟩ := List.getElem?_eq_some_iff.mp he'
+  have hmem : e ∈ es.drop N := by
+    apply List.mem_drop_iff_getElem.mpr
+    exact ⟨n - N, by omega, by simp [show N + (n - N) = n by omega, heq]⟩
+  have := List.all_eq_true.mp hN e hmem
+  simpa using this
+
+/-! ### a concrete execution: root event + two child events, one failing, two workers -/
+
+/-- the events of the witness run: `AddEventAndWait` on a new root (register, handler observer,
+    push), worker 0 runs the root's rule which adds two children, worker 1 runs child 1 (its rule
+    fails: SetErrors, Finish, error observer), worker 0 runs child 2, the last finisher posts, the
+    three callbacks run, the wait returns -/
+def wEvs : List ConcEvent := [.newRoot, .at 0 .register, .at 0 .regHandler, .at 0 (.addEvent 0 true [0]),
+  .at 0 (.pop 0 0), .at 0 (.newChild 0), .at 0 (.addEvent 1 true [0]), .at 0 (.newChild 0), .at 0 (.addEvent 2 true [0]),
+  .at 0 (.pop 1 1), .at 0 (.ruleReturns 0 true), .at 0 (.ruleReturns 1 false), .at 0 (.taskDone 0), .at 0 (.pop 0 2),
+  .at 0 (.taskDone 1), .at 0 (.ruleReturns 2 true), .at 0 (.setErrors 1), .at 0 (.taskDone 2), .at 0 (.errFinish 1),
+  .at 0 (.notified 1), .at 0 .dropQueue, .at 0 .post, .at 0 (.observerRuns .wait), .at 0 .waitReturns,
+  .at 0 (.observerRuns .handler), .at 0 (.observerRuns .queue)]
+
+/-- the cascade's state at the end of the witness run -/
+def wEnd : State :=
+  { workers := 2, failFirst := false,
+    mons := [{ parent := none, phase := .done },
+             { parent := some 0, phase := .done, failed := [0], err := some [0], inErrors := true },
+             { parent := some 0, phase := .done }],
+    unfinished := 0, posted := 1, waiting := true, handlerReg := true, released := 1, waitReturned := true,
+    handlerCalls := 1 }
+
+def wC : Conc := { workers := 2, failFirst := false, roots := [wEnd.local] }
+
+theorem wRun : Conc.run (Conc.init 2 false) wEvs = some wC := rfl
+
+theorem wEnd_quiescent : ∀ e, e.internal = true → step wEnd e = none := by
+  intro e he
+  cases e with
+  | pop w i => rcases i with _ | _ | _ | i <;> simp [step, wEnd]
+  | ruleReturns i ok => rcases i with _ | _ | _ | i <;> simp [step, wEnd]
+  | taskDone i => rcases i with _ | _ | _ | i <;> simp [step, wEnd]
+  | setErrors i => rcases i with _ | _ | _ | i <;> simp [step, wEnd]
+  | errFinish i => rcases i with _ | _ | _ | i <;> simp [step, wEnd]
+  | notified i => rcases i with _ | _ | _ | i <;> simp [step, wEnd]
+  | dropQueue => decide
+  | post => decide
+  | observerRuns o => cases o <;> decide
+  | _ => simp [Event.internal] at he
+
+theorem wC_quiescent : ¬ wC.enabledInternal := by
+  rintro ⟨r, e, he, hs⟩
+  have hview : wC.view 0 = some wEnd := rfl
+  cases r with
+  | zero =>
+    simp only [Conc.step, hview] at hs
+    split at hs
+    · rw [wEnd_quiescent e he] at hs; cases hs
+    · cases hs
+  | succ r => simp [Conc.step, Conc.view, wC] at hs
+
+/-- the witness execution: one event of `wEvs` per tick, then rest -/
+def wExec : Exec := execOfRun (Conc.init 2 false) wC wEvs ⟨2, false, [], rfl⟩ wRun
+
+theorem wExec_fair : wExec.Fair :=
+  execOfRun_fair _ wRun (by decide) (by decide) wC_quiescent
+
+theorem wExec_addsStop : wExec.AddsStopAt 9 :=
+  execOfRun_addsStop _ wRun (by decide)
+
+/-- no tick of the run stutters: each of the 26 events is enabled when it is attempted -/
+theorem wExec_no_stutter : ∀ n, n < 26 → ∃ e, wExec.ev n = some e ∧
+    Conc.stepE (wExec.C n) e = some (wExec.C (n + 1)) := by
+  intro n hn
+  have hn' : n < wEvs.length := hn
+  exact ⟨wEvs[n], List.getElem?_eq_getElem hn', execState_step wRun hn'⟩
+
+theorem handed_of_roots {C : Conc}
+    (h : C.roots.all (fun s => decide (0 < s.workers) && s.mons.all (fun m => m.phase != .fresh)) = true) :
+    ∀ r v, C.view r = some v → 0 < v.workers ∧ ∀ m ∈ v.mons, m.phase ≠ .fresh := by
+  intro r v hv
+  rw [view_eq] at hv
+  obtain ⟨s0, hs0, hs0v⟩ := Option.map_eq_some_iff.mp hv
+  have := List.all_eq_true.mp h s0 (List.mem_of_getElem? hs0)
+  simp only [Bool.and_eq_true, decide_eq_true_eq, List.all_eq_true] at this
+  subst hs0v
+  refine ⟨this.1, ?_⟩
+  intro m hm
+  have := this.2 m hm
+  simpa using this
+
+
+/-- the shared system at tick 9 of the witness run: the root's action is executing (worker 0), both
+    children are queued, the three observers are registered -/
+def wC9 : Conc :=
+  { workers := 2, failFirst := false,
+    roots := [{ workers := 2, failFirst := false,
+                mons := [{ parent := none, phase := .running 0, todo := [0] },
+                         { parent := some 0, phase := .queued, todo := [0] },
+                         { parent := some 0, phase := .queued, todo := [0] }],
+                unfinished := 3, waiting := true, handlerReg := true }],
+    table := [(0, .wait), (0, .handler), (0, .queue)], pending := [], queues := [0] }
+
+theorem wRun9 : Conc.run (Conc.init 2 false) (wEvs.take 9) = some wC9 := rfl
+
+theorem wExec_at_9 : wExec.C 9 = wC9 := by
+  show execState (Conc.init 2 false) wEvs 9 = wC9
+  unfold execState
+  rw [wRun9]
+  rfl
+
+theorem wExec_handed_at_9 : ∀ r v, (wExec.C 9).view r = some v → 0 < v.workers ∧ ∀ m ∈ v.mons, m.phase ≠ .fresh := by
+  rw [wExec_at_9]
+  exact handed_of_roots (by decide)
+
+theorem wExec_final : wExec.C 26 = wC := by
+  show execState (Conc.init 2 false) wEvs 26 = wC
+  have hlen : wEvs.length ≤ 26 := by decide
+  exact execState_final wRun hlen
+
 end Ecal.Cascade
